@@ -33,6 +33,8 @@ C15-F3 C15 ba0fe32
 C15-F4 C15 7e9df0f
 C15-F5 C15 825370f
 C15-F6 C15 6bbd3e1
+C15-F7 C15 4c0bfb0
+C15-F8 C15 3094a2c
 "
 want="$*"
 git -C /repo worktree remove --force $WT 2>/dev/null; git -C /repo worktree add -q --detach $WT HEAD || exit 2
